@@ -5,7 +5,7 @@ package codon
 // C08: codon usage tables count exactly and never leak between calls.
 //
 // verif:bound C08 counting clause: coding sequences over all 128 ASCII values (any case, non-ACGT letters, lengths not divisible by 3), length 0..7 (quick) / 0..10 (thorough), tables 1 and 11
-// verif:bound C08 history clause: operation sequences of length 2..3 (quick) / 2..4 (thorough) over 'request default table a', 're-weight default table a with a symbolic one-codon sequence', 'add two held tables', table ids {1, 2}; every held table compared with a value-semantics model after every step
+// verif:bound C08 history clause: operation sequences of length 2..3 (quick) / 2..4 (thorough) over 'request default table a', 're-weight default table a with a symbolic one-codon sequence', 'add two held tables', table id pairs {1,2}, {1,11}, {27,28} (the last two share their amino-acid strings); every held table compared with a value-semantics model after every step
 // verif:bound C08 outside the claim: concurrent re-weighting and the race detector (pre-emption between synchronisation points is not modelled); serialise/parse operations; sequences longer than the bound
 
 func c08Upper(s string) string {
@@ -80,7 +80,8 @@ func c08Triplets() []string {
 
 func Harness_C08_History() {
 	steps := 2 + vChoice(vTier(2, 3))
-	ids := []int{1, 2}
+	// table pairs: different codes (1, 2); codes with identical amino-acid strings (1, 11) and (27, 28)
+	ids := [][]int{{1, 2}, {1, 11}, {27, 28}}[vChoice(3)]
 	var held []c08Held
 	touched := map[int]int{}    // id -> number of operations that requested the default table
 	reweighted := map[int]bool{} // id -> some operation re-weighted the default table
@@ -142,7 +143,7 @@ func Harness_C08_History() {
 			c08Check(h, "every-held-table-matches-value-semantics-model")
 		}
 	}
-	vCover("C08 history re-weights one table and requests another", reweighted[1] && touched[2] > 0 && !leak)
+	vCover("C08 history re-weights one table and requests another", reweighted[ids[0]] && touched[ids[1]] > 0 && !leak)
 }
 
 func Selftest_C08_Vectors() {
